@@ -77,9 +77,33 @@ def run_cli(cmd, args, cwd=None):
             runner = CliRunner(mix_stderr=True)
         except TypeError:
             runner = CliRunner()
-        res = runner.invoke(getattr(commands(), cmd), [str(a) for a in args], catch_exceptions=True)
+        # a command that does not come back (an endless loop in the tool) must not hang the check: interrupt it after a
+        # generous limit and report it as an internal error ("abort", "Hang")
+        import signal
+
+        class Hang(BaseException):
+            pass
+
+        def on_alarm(signum, frame):
+            raise Hang()
+
+        limit = float(os.environ.get("VERIF_CMD_LIMIT", "45"))
+        use_alarm = hasattr(signal, "setitimer") and __import__("threading").current_thread() is __import__("threading").main_thread()
+        if use_alarm:
+            prev = signal.signal(signal.SIGALRM, on_alarm)
+            signal.setitimer(signal.ITIMER_REAL, limit)
+        try:
+            res = runner.invoke(getattr(commands(), cmd), [str(a) for a in args], catch_exceptions=True)
+        except Hang:
+            return ("abort", "Hang"), f"command did not return within {limit:.0f} s"
+        finally:
+            if use_alarm:
+                signal.setitimer(signal.ITIMER_REAL, 0)
+                signal.signal(signal.SIGALRM, prev)
     finally:
         os.chdir(old)
+    if res.exception is not None and isinstance(res.exception, BaseException) and type(res.exception).__name__ == "Hang":
+        return ("abort", "Hang"), f"command did not return within {limit:.0f} s"
     if res.exception is not None and not isinstance(res.exception, SystemExit):
         return ("abort", type(res.exception).__name__), res.output
     return ("exit", res.exit_code), res.output
